@@ -130,4 +130,15 @@ theorem kSum_embedStrided [CommRing K] (χ : Vec3 → K) (l : List Vec3) (i : Na
   · rfl
   · exact kSum_zero χ l
 
+/-- a VARIANT of `get_system_R` for the non-magnetic case that fills the spin-down block with the complex conjugate of
+    the spin-up block ("time-reversed partner").  This is NOT what the code does; it is defined here only to state that
+    it would be wrong (Props: `conjugated_down_block_is_wrong`). -/
+def sysRHamConjDown {K : Type} [Add K] [OfNat K 0] (conj : K → K) (merged lsoc lup : List Vec3)
+    (Hsoc Hup : Nat → Nat → Nat → K) (r a b : Nat) : K :=
+  scatterAdd
+    (scatterAdd
+      (scatterAdd (fun _ => 0) (rmap merged lsoc) (fun j => Hsoc j a b))
+      (rmap merged lup) (fun j => embedStrided 0 (Hup j) a b))
+    (rmap merged lup) (fun j => embedStrided 1 (fun m n => conj (Hup j m n)) a b) r
+
 end WB.C25
